@@ -196,6 +196,40 @@ def run(model: Model, rep: Report) -> None:
     b = gk.params[0]
     r3.check(rets == [f"(0,-{b}.x1,-{b}.y0)", f"(1,-{b}.y0,{b}.x0)"], site(gk), gk.qualname, "flat order: vertical boxes first (right to left, top down), then horizontal boxes top down, left to right", why=f"{rets}")
 
+    # ---------------------------------------------------------------- R5 optional parameter: only None disables
+    r5 = rep.rule("C09-R5", "GUARD", "boxes_flow is optional and 0 is a legal value: wherever it decides a branch it is compared with None by identity, never tested for truth", 2)
+    for q, f in sorted(model.funcs.items()):
+        if not q.startswith(L) or isinstance(f.node, ast.Lambda):
+            continue
+        ctx: List[ast.AST] = []
+        for n in walk_no_nested(f.node):
+            if isinstance(n, (ast.If, ast.While, ast.IfExp, ast.Assert)):
+                ctx.append(n.test)
+            elif isinstance(n, ast.BoolOp):
+                ctx += n.values
+            elif isinstance(n, ast.UnaryOp) and isinstance(n.op, ast.Not):
+                ctx.append(n.operand)
+            elif isinstance(n, ast.comprehension):
+                ctx += n.ifs
+        seen_ids = set()
+        for t in ctx:
+            if id(t) in seen_ids:
+                continue
+            seen_ids.add(id(t))
+            if isinstance(t, (ast.BoolOp,)) or (isinstance(t, ast.UnaryOp) and isinstance(t.op, ast.Not)):
+                continue  # their operands are in the list themselves
+            if not any(isinstance(x, ast.Attribute) and x.attr == "boxes_flow" or isinstance(x, ast.Name) and x.id == "boxes_flow" for x in ast.walk(t)):
+                continue
+            if isinstance(t, (ast.Attribute, ast.Name)):
+                r5.violation(site(f, t), f.qualname, f"`{unparse(t)}` tested for truth", "boxes_flow = 0 (a documented value: equal weight of horizontal and vertical position) is falsy and would be treated like None, i.e. the flow analysis is silently disabled")
+            elif isinstance(t, ast.Compare) and len(t.ops) == 1 and isinstance(t.ops[0], (ast.Is, ast.IsNot)) and isinstance(t.comparators[0], ast.Constant) and t.comparators[0].value is None:
+                r5.ok(site(f, t), f.qualname, f"`{unparse(t)}`: identity test with None")
+            elif isinstance(t, ast.Compare) and any(isinstance(o, (ast.Eq, ast.NotEq)) for o in t.ops) and any(isinstance(c, ast.Constant) and c.value is None for c in [t.left] + t.comparators):
+                r5.ok(site(f, t), f.qualname, f"`{unparse(t)}`: comparison with None")
+            elif isinstance(t, ast.Compare):
+                r5.ok(site(f, t), f.qualname, f"`{unparse(t)[:60]}`: numeric comparison (range validation)", nontrivial=False)
+            else:
+                r5.ok(site(f, t), f.qualname, f"`{unparse(t)[:60]}`: not a truth test of the value", nontrivial=False)
     # ---------------------------------------------------------------- R4 spatial queries used by the neighbour relation
     from .c20 import drange_rule
 
